@@ -18,6 +18,7 @@
 package simrt
 
 import (
+	"os"
 	"fmt"
 	"hash/fnv"
 	"reflect"
@@ -561,7 +562,20 @@ func (s *Sched) loop() {
 			continue
 		}
 		if s.steps >= s.cfg.MaxSteps {
-			s.failLocked(&Verdict{Oracle: "livelock", Site: "simrt", Detail: fmt.Sprintf("step budget %d exhausted", s.cfg.MaxSteps)})
+			// (the stacks show where the tasks are spinning; the first line stays the signature)
+			buf := make([]byte, 1<<20)
+			buf = buf[:runtime.Stack(buf, true)]
+			if len(buf) > 200000 {
+				buf = buf[:200000]
+			}
+			if f := os.Getenv("VERIF_LIVELOCK_DUMP"); f != "" {
+				_ = os.WriteFile(f, buf, 0o644)
+			}
+			states := ""
+			for _, t := range s.tasks {
+				states += fmt.Sprintf(" %v:%v", t, t.state)
+			}
+			s.failLocked(&Verdict{Oracle: "livelock", Site: "simrt", Detail: fmt.Sprintf("step budget %d exhausted\ntasks:%s\n%s", s.cfg.MaxSteps, states, buf)})
 			return
 		}
 		s.steps++
